@@ -18,8 +18,10 @@ package mdns
 //@ iface avahi.ServerInterface.ResolveService(iface, protocol, name, serviceType, domain, aprotocol, flags)
 
 // the resolver callback installed by the manager (MdnsManager.processMdnsEntry)
+// the resolve callback is MdnsManager.processMdnsEntry (or an application's): it may change anything except the
+// provider that calls it (callbacks do not re-enter the object they are called from: DESIGN.md section 3.2)
 //@ functype api.MdnsResolveCB(elements, name, host, addresses, port, remove)
-//@   modifies *
+//@   modifies * except AvahiProvider, ZeroconfProvider
 //@ iface api.MdnsReportInterface.ReportMdnsEntries(entries, newEntries)
 //@   modifies *
 
@@ -100,11 +102,29 @@ package mdns
 // the mandatory-keys loop: every key looked at so far is present
 //@ loop (m *MdnsManager).processMdnsEntry #0
 //@   invariant forall i: int :: 0 <= i && i <= rangeindex ==> $rangeslice[i] in elements
+// resolver events are applied in the order they arrive: each one is processed to the end, on the listener's own
+// goroutine, before the next is taken from the browser channels (an add still being resolved while its remove is
+// processed would leave a service visible that is gone)
+//@ func (a *AvahiProvider).chanListener(cb) [C17,C08]
+//@   requires a.avServer != nil && cb != nil && a.serviceElements != nil
+//@   atcall processService [C17] O1-in-order: !$go
+//@   modifies *
+//@ func (z *ZeroconfProvider).chanListener(cb) [C17,C08]
+//@   requires cb != nil
+//@   atcall cb [C17] O1-in-order: !$go
+//@   modifies *
+//@ loop (z *ZeroconfProvider).chanListener #0
+//@   invariant z.ctx != nil
+//@ closure (z *ZeroconfProvider).chanListener$1
+//@ lib context.WithCancel(parent)
+//@   ensures result.0 != nil && result.1 != nil
+//@ iface context.Context.Done() pure
+//@ lib zeroconf.Browse(ctx, service, domain, entries, removed)
 //@ func (a *AvahiProvider).processService(service, remove, cb) [C08]
 //@   requires a.avServer != nil && cb != nil && a.serviceElements != nil
 //@   modifies *
 //@ func (a *AvahiProvider).processRemovedService(service, cb) [C08]
-//@   requires cb != nil
+//@   requires cb != nil && a.serviceElements != nil
 //@   modifies *
 //@ func (a *AvahiProvider).processAddedService(service, cb) [C08]
 //@   requires cb != nil && a.serviceElements != nil
@@ -124,6 +144,7 @@ package mdns
 // the application toggles auto-accept and shuts down while closing connections re-announce, and the resolver
 // goroutines report while Start is still running: flag, provider and report callback are shared state
 //@ guarded MdnsManager.autoaccept, MdnsManager.mdnsProvider, MdnsManager.report by MdnsManager.muxConfig
-//@ immutable AvahiProvider.ifaceIndexes, AvahiProvider.avServer, ZeroconfProvider.ifaces
+// (serviceElements: the map header is set by the constructor only; its contents are guarded by muxEl)
+//@ immutable AvahiProvider.ifaceIndexes, AvahiProvider.avServer, AvahiProvider.serviceElements, ZeroconfProvider.ifaces
 //@ noclaim AvahiProvider.shutdownChan, AvahiProvider.addServiceChan, AvahiProvider.removeServiceChan because written under AvahiProvider.mux but read by the listener goroutine without it (ordered only by the shutdown token); no avahi daemon in the sandbox to replay a schedule
 //@ noclaim ZeroconfProvider.ctx because written under ZeroconfProvider.mux by the listener goroutine that is also its only reader (and the parent of the browse goroutine it starts afterwards)
